@@ -160,7 +160,7 @@ class Exec:
                 v = env.get(mm.group(1))
                 if v is not None and v.kind == "opt":
                     if mm.group(2) != v.some_name or idx != 0:
-                        raise Unsupported("projection of the empty variant of " + base)
+                        return Val("opaque", tag="residual")
                     return v.val
                 if v is None or v.kind != "variant":
                     raise Unsupported("variant projection of " + base)
@@ -183,8 +183,10 @@ class Exec:
             return Val("ref", field=int(m.group(2)))
         m = re.match(r"^(AddWithOverflow|SubWithOverflow|MulWithOverflow|Add|Sub|Mul|Rem|Div|Eq|Ne|Lt|Le|Gt|Ge|BitAnd|BitOr|BitXor|Shl|Shr|AddUnchecked|SubUnchecked)\((.*)\)$", rhs)
         if m:
-            a, b = [self.operand(x, env) for x in split_top(m.group(2))]
-            return self.binop(m.group(1), a, b)
+            ops = split_top(m.group(2))
+            a, b = [self.operand(x, env) for x in ops]
+            signed = any(self._is_signed_operand(x) for x in ops)
+            return self.binop(m.group(1), a, b, signed)
         m = re.match(r"^Not\((.*)\)$", rhs)
         if m:
             a = self.operand(m.group(1), env)
@@ -209,9 +211,11 @@ class Exec:
             return self.operand(m.group(1), env) if re.match(r"^(copy|move) ", m.group(1)) else self.place(m.group(1), env)
         if re.match(r"^std::sync::atomic::Ordering::\w+$", rhs):
             return Val("opaque", tag=rhs.split("::")[-1])
-        m = re.match(r"^discriminant\((_\d+)\)$", rhs)
+        m = re.match(r"^discriminant\((.*)\)$", rhs)
         if m:
-            v = env[m.group(1)]
+            v = self.place(m.group(1), env)
+            if v.kind == "cenum":
+                return BV(64, v.disc)
             if v.kind == "variant":
                 return BV(64, bv(64, v.index))
             if v.kind == "opt":
@@ -220,9 +224,30 @@ class Exec:
         m = re.match(r"^std::result::Result::<.*>::Ok\((.*)\)$", rhs)
         if m:
             return Val("variant", variant="Ok", index=0, fields=[self.operand(m.group(1), env)])
+        m = re.match(r"^std::result::Result::<.*>::Err\((.*)\)$", rhs)
+        if m:
+            return Val("variant", variant="Err", index=1, fields=[Val("opaque", tag="error")])
+        m = re.match(r"^no_retag (copy|move) (.*)$", rhs)
+        if m:
+            return self.operand("%s %s" % (m.group(1), m.group(2)), env)
+        m = re.match(r"^(?:\w+::)*Error::\w+\((.*)\)$", rhs)
+        if m:
+            return Val("opaque", tag="error")
         m = re.match(r"^\[(.*)\]$", rhs)
         if m:
-            return Val("array", items=[self.operand(x, env) for x in split_top(m.group(1))])
+            try:
+                return Val("array", items=[self.operand(x, env) for x in split_top(m.group(1))])
+            except Unsupported:
+                return Val("opaque", tag="array")
+        m = re.match(r"^&(mut )?(_\d+)$", rhs)
+        if m:
+            return env[m.group(2)]
+        m = re.match(r"^std::ops::RangeFrom::<usize> \{ start: const (\d+)_usize \}$", rhs)
+        if m:
+            return Val("rangefrom", start=int(m.group(1)))
+        m = re.match(r'^const b".*"$|^const ".*"$', rhs)
+        if m:
+            return Val("opaque", tag="bytes")
         m = re.match(r"^&(_\d+)$", rhs)
         if m:
             return env[m.group(1)]
@@ -238,7 +263,14 @@ class Exec:
             return Val("keyterm", key=getattr(a, "text", None))
         m = re.match(r"^\((.*)\)$", rhs)
         if m and re.match(r"^(copy|move|const) ", m.group(1).strip()):
-            return Val("tuple", items=[self.operand(x, env) for x in split_top(m.group(1))])
+            items = []
+            for x in split_top(m.group(1)):
+                if x.strip():
+                    items.append(self.operand(x, env))
+            return Val("tuple", items=items)
+        m = re.match(r"^((?:\w+::)*ControlMessage::\w+)$", rhs)
+        if m:
+            return Val("struct", name=m.group(1), fields={})
         m = re.match(r"^([A-Za-z_][\w:]*) \{ (.*) \}$", rhs)
         if m:
             fields = {}
@@ -250,7 +282,17 @@ class Exec:
             return self.operand(rhs, env)
         raise Unsupported("rvalue " + rhs)
 
-    def binop(self, op, a, b):
+    def _is_signed_operand(self, text):
+        text = text.strip()
+        m = re.match(r"^const -?\d+_(i\d+|isize)$", text)
+        if m:
+            return True
+        m = re.match(r"^(?:copy|move) (_\d+)$", text)
+        if m:
+            return self.fn.locals.get(m.group(1), "").strip().startswith("i") and self.fn.locals.get(m.group(1), "").strip() in WIDTH
+        return False
+
+    def binop(self, op, a, b, signed=False):
         if a.kind == "bool" and b.kind == "bool":
             t = {"Eq": "(= %s %s)", "Ne": "(not (= %s %s))", "BitAnd": "(and %s %s)", "BitOr": "(or %s %s)", "BitXor": "(xor %s %s)"}.get(op)
             if t:
@@ -288,6 +330,8 @@ class Exec:
                                        BOOL("(not (= ((_ extract %d %d) %s) %s))" % (2 * w - 1, w, wide, bv(w, 0)))])
         cmpop = {"Eq": "(= %s %s)", "Ne": "(not (= %s %s))", "Lt": "(bvult %s %s)", "Le": "(bvule %s %s)", "Gt": "(bvugt %s %s)",
                  "Ge": "(bvuge %s %s)"}.get(op)
+        if signed and cmpop:
+            cmpop = cmpop.replace("bvu", "bvs")
         if cmpop:
             return BOOL(cmpop % (x, y))
         raise Unsupported("binop " + op)
@@ -580,6 +624,10 @@ class Exec:
                     parent, pc, hook, heap)
         if re.search(r"OwnedTerm::as_integer$", c):
             f = A(0)
+            if f.kind == "elem":
+                k = f.index
+                return (Val("opt", some=fresh("env_isint_%d" % k, "Bool"), val=BV(64, fresh("env_val_%d" % k, "(_ BitVec 64)")), some_idx=1, some_name="Some"),
+                        parent, pc, hook, heap)
             if f.kind != "field":
                 raise Unsupported("as_integer on " + repr(f))
             nm = f.key.replace(".", "_")
@@ -601,8 +649,61 @@ class Exec:
         if re.search(r"as Try>::branch$", c) and A(0).kind == "opt":
             v = A(0)
             return Val("opt", some=v.some, val=v.val, some_idx=0, some_name="Continue"), parent, pc, hook, heap
+        if re.search(r"^<std::result::Result<.*> as FromResidual<.*>>::from_residual$", c):
+            return Val("variant", variant="Err", index=1, fields=[Val("opaque", tag="error")]), parent, pc, hook, heap
         if re.search(r"as FromResidual<.*>>::from_residual$", c):
             return Val("opt", some="false", val=Val("opaque", tag="none"), some_idx=1, some_name="Some"), parent, pc, hook, heap
+        # ---- control messages (C08): the input is an arbitrary term; a tuple has symbolic length and opaque elements
+        if re.search(r"OwnedTerm::as_tuple$", c):
+            self.fresh["env_len"] = "(_ BitVec 64)"
+            return (Val("opt", some=fresh("env_is_tuple", "Bool"), val=Val("vec", start=0), some_idx=1, some_name="Some"), parent, pc, hook, heap)
+        if re.search(r"::ok_or_else::<", c):
+            v = A(0)
+            if v.kind != "opt":
+                raise Unsupported("ok_or_else on " + repr(v))
+            return Val("opt", some=v.some, val=v.val, some_idx=0, some_name="Ok"), parent, pc, hook, heap
+        if re.search(r"slice::<impl \[.*\]>::to_vec$", c):
+            return A(0), parent, pc, hook, heap
+        if re.search(r"Vec::<.*>::is_empty$", c):
+            v = A(0)
+            return BOOL("(= env_len %s)" % bv(64, v.start)), parent, pc, hook, heap
+        if re.search(r"Vec::<.*>::len$", c):
+            v = A(0)
+            return BV(64, "(bvsub env_len %s)" % bv(64, v.start)), parent, pc, hook, heap
+        m = re.search(r"<std::vec::Vec<.*> as Index(Mut)?<usize>>::index(_mut)?$", c)
+        if m:
+            v, i = A(0), A(1)
+            mm = re.search(r"bv(\d+) 64", i.s)
+            if v.kind != "vec" or not mm:
+                raise Unsupported("vector index")
+            k = int(mm.group(1))
+            self._bad(parent, "(and %s (not (bvult %s env_len)))" % (pc, bv(64, k)), "panic: index out of bounds (element %d)" % k)
+            npc = "(and %s (bvult %s env_len))" % (pc, bv(64, k)) if pc != "true" else "(bvult %s env_len)" % bv(64, k)
+            return Val("elem", index=k), parent, npc, hook, heap
+        if re.search(r"<std::vec::Vec<.*> as Index<std::ops::RangeFrom<usize>>>::index$", c):
+            v, r = A(0), A(1)
+            self._bad(parent, "(and %s (bvugt %s env_len))" % (pc, bv(64, r.start)), "panic: slice start out of range")
+            return Val("vec", start=r.start), parent, pc, hook, heap
+        if re.search(r"std::mem::take::<.*OwnedTerm>$|<(erltf::)?OwnedTerm as Clone>::clone$", c):
+            return A(0), parent, pc, hook, heap
+        if re.search(r"OwnedTerm::as_integer$", c) and A(0).kind == "elem":
+            k = A(0).index
+            return (Val("opt", some=fresh("env_isint_%d" % k, "Bool"), val=BV(64, fresh("env_val_%d" % k, "(_ BitVec 64)")), some_idx=1, some_name="Some"),
+                    parent, pc, hook, heap)
+        if re.search(r"RangeInclusive::<i64>::contains::<i64>$", c):
+            lo, hi = self.promoted_range
+            x = A(1)
+            return BOOL("(and (bvsge %s %s) (bvsle %s %s))" % (x.s, bv(64, lo), x.s, bv(64, hi))), parent, pc, hook, heap
+        if re.search(r"ControlMessageType::from_u8$", c):
+            x = A(0)
+            conds, disc = [], bv(64, 0)
+            for tag, variant in self.tag_table:
+                cnd = "(= %s %s)" % (x.s, bv(8, tag))
+                conds.append(cnd)
+                disc = "(ite %s %s %s)" % (cnd, bv(64, self.repr_of[variant]), disc)
+            return (Val("opt", some="(or false %s)" % " ".join(conds), val=Val("cenum", disc=disc), some_idx=1, some_name="Some"), parent, pc, hook, heap)
+        if re.search(r"fmt::rt::Argument::<'_>::new_|Arguments::<'_>::new|^format$|alloc::fmt::format|must_use::<|as ToString>::to_string$", c):
+            return Val("opaque", tag="fmt"), parent, pc, hook, heap
         if re.search(r"<erltf::Atom as Clone>::clone$|<Atom as Clone>::clone$", c):
             return Val("opaque", tag="atom"), parent, pc, hook, heap
         if re.search(r"ExternalPid::new$", c):
